@@ -450,3 +450,17 @@ func derivesOnlyFrom(v ssa.Value, ok func(*ssa.Function) bool, depth int) (bool,
 	}
 	return true, n
 }
+
+// fullArgs: the arguments of a call including the receiver, whether the call
+// is static (receiver first in Args) or goes through an interface (receiver
+// in Value).
+func fullArgs(in ssa.Instruction) []ssa.Value {
+	c := callCommon(in)
+	if c == nil {
+		return nil
+	}
+	if c.IsInvoke() {
+		return append([]ssa.Value{c.Value}, c.Args...)
+	}
+	return c.Args
+}
